@@ -62,6 +62,7 @@ class DnsWalk(sym.Walker):
         self.buflen = f.params[1]["ref"]["name"]
         self.paths = []
         self.nsym = 0
+        self.opaque = []
 
     def off(self, form):
         """offset relative to the buffer start, or None"""
@@ -125,6 +126,13 @@ class DnsWalk(sym.Walker):
                     st.log.append(Tok("data", off, ln, a[2], x, cur, cov))
                     self.assign(st, cur, None if cform is None or ln is None else L.add(cform, ln))
                 return
+        if k == "Call" and x.get("fn") not in ("putshort", "putlong", "putbyte", "putname", "puttxtbin", "putdata"):
+            # the write cursor handed by address to another function of the program: what it emits is not followed
+            for a_ in x.get("a", ()):
+                a_ = sk(a_)
+                if a_.get("k") == "Un" and a_["op"] == "&" and sk(a_["a"][0]).get("k") == "Ref" and \
+                        (sk(a_["a"][0]).get("t") or {}).get("k") == "ptr" and self.P.callee(x, self.f) is not None:
+                    self.opaque.append(x)
         if k == "Bin" and x["op"] == "=":
             lhs = sk(x["a"][0])
             if lhs.get("k") == "Mem" and lhs.get("rec") == "HEADER":
@@ -358,6 +366,12 @@ def run(P, chk, tier):
         w = DnsWalk(P, f)
         st = sym.State()
         w.run_unrolled(f.entry, st, {f.exit}, maxvisit=3)
+        if w.opaque:
+            c0 = w.opaque[0]
+            chk.undecided(r1, f, ir.loc(c0), "%s: %s" % (name, pp(c0)[:50]),
+                          "the builder hands its write cursor to %s(); the fields that function emits are not followed, so the "
+                          "grammar, lengths and bounds of this builder are not judged" % c0.get("fn"))
+            continue
         qn = f.params[qi]["ref"]["name"]
         npos = 0
         seen_sig = set()
